@@ -226,6 +226,8 @@ func c03Normalise(ts []c03Tok) []c03Tok {
 	return out
 }
 
+var c03Reserved = map[string]bool{"!": true, "{": true, "}": true, "for": true, "case": true, "esac": true, "in": true, "if": true, "elif": true, "then": true, "else": true, "fi": true, "while": true, "until": true, "do": true, "done": true}
+
 var c03Damage = []c03Tok{{1, ")", false}, {0, "}", true}, {0, "fi", true}, {0, "done", true}, {0, "esac", true}, {0, "then", true}, {0, "do", true}, {1, ";;", false}, {1, "|", false}, {1, "&&", false}, {1, "(", false}, {0, "{", true}, {5, "$(", false}, {6, "`", false}}
 
 func c03Gen(c *core.Ctx) {
@@ -361,6 +363,18 @@ func c03Gen(c *core.Ctx) {
 			}
 			// truncation at every token boundary
 			emit(append([]c03Tok{}, base[:k]...), "truncation")
+			// a reserved word, a for-loop variable or a function name continued by a
+			// quoted / expanded part: one ordinary word, no longer a reserved word or name
+			if t := base[k]; recog.Kind(t.K) == recog.Word && t.Plain {
+				afterFor := k > 0 && recog.Kind(base[k-1].K) == recog.Word && base[k-1].Plain && base[k-1].Text == "for"
+				beforeParen := k+1 < len(base) && recog.Kind(base[k+1].K) == recog.Op && base[k+1].Text == "("
+				if c03Reserved[t.Text] || afterFor || beforeParen {
+					sfx := []string{`""`, "$y", "'q'", "${z}"}[(i+k)%4]
+					d := append([]c03Tok{}, base...)
+					d[k] = c03Tok{int(recog.Word), t.Text + sfx, false}
+					emit(d, "composite-word")
+				}
+			}
 		}
 		for k := 0; k <= len(base); k++ {
 			d := c03Damage[(i+k)%len(c03Damage)]
@@ -378,7 +392,7 @@ func init() {
 		ID:          "C03",
 		Level:       "exploration",
 		Technique:   "runtime monitoring: differential oracle (independent recursive-descent recogniser on token sequences) for accept/reject, plus an intrinsic check of the returned parser.Error (type, Name, position at a token / construct start inside the source)",
-		Rule:        "a case is a token sequence rendered with single blanks: every string of <=4 tokens over a 36-token vocabulary (word, assignment word, number word, the name of a special built-in, the 16 reserved words, 13 operators, newline, \"$(\" and a backquote as tokens of their own), every string of 5-6 (thorough 5-7) tokens over the 9-token bracketing sub-vocabulary (a ( ) $( ` ; { } newline) — thorough adds a 3e6 sample of length 5-7 — and, for 1500 (thorough 40000) generated programs without here-documents: the program itself, every single-token deletion, duplication, adjacent swap, truncation at every token boundary, and two damage tokens (of ) } fi done esac then do ;; | && ( {) inserted at every boundary. The recogniser classifies the first complete command valid / invalid / incomplete / unsure (skipped). distinct_nontrivial = distinct (mutation kind, error message) pairs observed.",
+		Rule:        "a case is a token sequence rendered with single blanks: every string of <=4 tokens over a 36-token vocabulary (word, assignment word, number word, the name of a special built-in, the 16 reserved words, 13 operators, newline, \"$(\" and a backquote as tokens of their own), every string of 5-6 (thorough 5-7) tokens over the 9-token bracketing sub-vocabulary (a ( ) $( ` ; { } newline) — thorough adds a 3e6 sample of length 5-7 — and, for 1500 (thorough 40000) generated programs without here-documents: the program itself, every single-token deletion, duplication, adjacent swap, truncation at every token boundary, every reserved word / for-loop variable / function name continued by a quoted or expanded part, and two damage tokens (of ) } fi done esac then do ;; | && ( {) inserted at every boundary. The recogniser classifies the first complete command valid / invalid / incomplete / unsure (skipped). distinct_nontrivial = distinct (mutation kind, error message) pairs observed.",
 		Assumptions: []string{"the recogniser follows XCU 2.10.2 with go.sh's pinned dialect; a reserved word directly after a redirection of a compound command, and here-document operators, are 'unsure' and skipped", "the message text is not judged"},
 		Gen:         c03Gen,
 		Replay:      func(c *core.Ctx, raw []byte) { core.ReplayOne(c, raw, c03Exec) },
